@@ -86,15 +86,18 @@ func verifC19Vesa(out *verifOut, id int, cur *verifCur) {
 	cons.fb = fb
 	p := &verifPainter{W: W, H: H, pitch: pitch, bytespp: uint64(cons.bytesPerPixel), logoH: logoH, bpp: bpp,
 		rp: rp, rs: rs, gp: gp, gs: gs, bp: bp, bs: bs}
+	for i := uint64(0); i < 256; i++ {
+		p.pal[i] = [3]uint64{verifMix(pseed, i*3) & 0xff, verifMix(pseed, i*3+1) & 0xff, verifMix(pseed, i*3+2) & 0xff}
+	}
+	// setPalette makes the console's palette equal to the reference painter's (p.pal)
 	setPalette := func() {
 		cons.palette = make(color.Palette, 256)
-		for i := uint64(0); i < 256; i++ {
-			r, g, b := verifMix(pseed, i*3)&0xff, verifMix(pseed, i*3+1)&0xff, verifMix(pseed, i*3+2)&0xff
-			cons.palette[i] = color.RGBA{R: uint8(r), G: uint8(g), B: uint8(b)}
-			p.pal[i] = [3]uint64{r, g, b}
+		for i := range p.pal {
+			cons.palette[i] = color.RGBA{R: uint8(p.pal[i][0]), G: uint8(p.pal[i][1]), B: uint8(p.pal[i][2])}
 		}
 	}
 	setPalette()
+	var theLogo *logo.Image
 
 	if logoH > 0 {
 		// a real SetLogo call: it draws the logo, remaps palette entries and reserves l.Height rows
@@ -107,6 +110,7 @@ func verifC19Vesa(out *verifOut, id int, cur *verifCur) {
 		for i := range l.Data {
 			l.Data[i] = uint8(i & 1)
 		}
+		theLogo = l
 		if bad, what := verifCall(func() { cons.SetLogo(l) }); bad {
 			out.Info("setlogo-panic", "case %d: %s", id, what)
 		}
@@ -279,6 +283,30 @@ func verifC19Vesa(out *verifOut, id int, cur *verifCur) {
 					}
 				}
 			}
+		case 3:
+			// SetFont with the font that is already set: the geometry stays, nothing may be painted
+			desc = geo + " SetFont(same font)"
+			if f != nil {
+				panicked, pmsg = verifCall(func() { cons.SetFont(f) })
+			} else {
+				panicked, pmsg = verifCall(func() { cons.SetFont(nil) })
+			}
+		case 4:
+			// SetLogo with the logo that is already set (nil if none): same geometry; its drawing and
+			// palette remapping are outside C19 and are undone here
+			desc = geo + " SetLogo(same logo)"
+			verifCall(func() { cons.SetLogo(theLogo) })
+			setPalette()
+			copy(fb, before)
+		case 5:
+			// SetPaletteColor: the palette entry changes; the repainting of pixels that showed the
+			// old colour (replace16/24) is outside C19 and is undone here
+			idx, r, g, b := cur.Next(), cur.Next(), cur.Next(), cur.Next()
+			desc = fmt.Sprintf("%s SetPaletteColor(%d, %d,%d,%d)", geo, idx, r, g, b)
+			verifCall(func() { cons.SetPaletteColor(uint8(idx), color.RGBA{R: uint8(r), G: uint8(g), B: uint8(b)}) })
+			p.pal[idx&0xff] = [3]uint64{r & 0xff, g & 0xff, b & 0xff}
+			setPalette()
+			copy(fb, before)
 		default:
 			panic("bad op")
 		}
@@ -288,8 +316,10 @@ func verifC19Vesa(out *verifOut, id int, cur *verifCur) {
 			status = 1
 		}
 		obs = append(obs, status)
-		for _, v := range fb {
-			obs = append(obs, uint64(v))
+		if op <= 2 { // SetFont / SetLogo / SetPaletteColor: status only (the buffer is checked by the monitor)
+			for _, v := range fb {
+				obs = append(obs, uint64(v))
+			}
 		}
 		if !inDomain {
 			continue
